@@ -5,6 +5,7 @@ package grpcgcp
 import (
 	"fmt"
 	"io"
+	"strings"
 	"testing"
 
 	"google.golang.org/grpc/grpclog"
@@ -257,9 +258,26 @@ func checkPool(c *vsched.RunCtx, prop string) {
 	for i := range cfgs {
 		cfgs[i].Prop = prop
 	}
+	// schedule part of the property: the concurrency drivers whose verdicts belong to it
+	drivers := map[string]string{
+		"C02": "pick-done,refresh-race",
+		"C03": "grow-race",
+		"C05": "grow-race,pick-done,refresh-race,rr-bind,rr-cancel,fallback-pick,resolve-pick,bind-unbind",
+		"C06": "grow-race,pick-done,refresh-race,rr-bind,rr-cancel,fallback-pick,resolve-pick,bind-unbind",
+		"C07": "refresh-race",
+		"C09": "rr-bind,rr-cancel",
+		"C20": "resolve-pick",
+	}[prop]
 	if c.Replay != nil {
-		replayPool(c, prop, cfgs)
+		if strings.HasPrefix(c.Replay.Harness, "sched:") {
+			runPoolDrivers(c, drivers, false)
+		} else {
+			replayPool(c, prop, cfgs)
+		}
 		return
+	}
+	if drivers != "" {
+		runPoolDrivers(c, drivers, false)
 	}
 	idx, sub, nsub := c.Split(len(cfgs))
 	for _, i := range idx {
